@@ -11,17 +11,6 @@ def ValidPath (p : Path) : Prop := p ≠ [] ∧ ∀ n ∈ p, ValidName n
 
 instance (p : Path) : Decidable (ValidPath p) := by unfold ValidPath; infer_instance
 
-theorem inv_pathBuf {ed : Ed} (h : Inv ed) (pb : Path) : Inv { ed with pathBuf := pb } :=
-  inv_congr (ed := ed) (ed' := { ed with pathBuf := pb }) (fun _ => rfl) rfl h
-
-theorem abs_pathBuf (ed : Ed) (pb : Path) : abs { ed with pathBuf := pb } = abs ed := by
-  funext q
-  simp only [abs]
-  cases aget [] ed.trees with
-  | none => rfl
-  | some root =>
-    exact lookupIn_congr (ed := ed) (ed' := { ed with pathBuf := pb }) rfl q root [] (fun _ _ _ => rfl)
-
 /-- `Editor::upsert` of a non-tree kind -/
 theorem upsert_spec {ed : Ed} (hinv : Inv ed) {p : Path} (hp : ValidPath p) {mode : Nat} {id : Bytes}
     (hk : isTreeMode mode = false) :
